@@ -234,6 +234,67 @@ def sweep_api(R, text, options, event, schedule, ref, budget):
     return tr.results, canon.canon_actions(E.erecord)
 
 
+_IN_CLI_CHILD = [False]
+
+
+class CliExit(Exception):
+    "the command-line program ended with a non-zero exit status"
+
+
+def _invoke_cli(R, opts):
+    """the whole program: Droop.py run as __main__ with a command line, standard output not a terminal.  Returns what
+    main() returned, recovered from the program's output (progress characters of exact Meek counts come first)."""
+    import io           # pylint: disable=import-outside-toplevel
+    import os           # pylint: disable=import-outside-toplevel
+    import runpy        # pylint: disable=import-outside-toplevel
+    argv = ['Droop.py']
+    for k_, v_ in opts.items():
+        if v_ is None:
+            continue
+        argv.append("%s=%s" % (k_, ('true' if v_ else 'false') if isinstance(v_, bool) else str(v_).strip()))
+    buf = io.StringIO()
+    err = io.StringIO()
+    old = (sys.argv, sys.stdout, sys.stderr)
+    sys.argv, sys.stdout, sys.stderr = argv, buf, err
+    code = 0
+    try:
+        runpy.run_path(os.path.join(R.path, 'Droop.py'), run_name='__main__')
+    except SystemExit as e:
+        code = e.code
+    finally:
+        sys.argv, sys.stdout, sys.stderr = old
+    if code not in (0, None):
+        raise CliExit("exit status %r: %s" % (code, err.getvalue()[-300:]))
+    out = buf.getvalue()
+    return out[:-1] if out.endswith('\n') else out
+
+
+def _run_cli_forked(R, text, options, event, k, mech, order, flags, raw):
+    """one interrupted execution of the command-line program, in a child of its own: the program installs whatever
+    signal dispositions it likes, the interrupt is a real SIGINT raised at event k, and a child killed by it is an
+    outcome, not a harness failure"""
+    def child():
+        _IN_CLI_CHILD[0] = True
+        signal.signal(signal.SIGINT, signal.default_int_handler)
+        r = run_faulted(R, text, options, event, k, mech, order, 'cli', flags, raw)
+        r.pop('renderings_obj', None)
+        return r
+    try:
+        return _core.fork_call(child, (), timeout=120, what='C19 cli run')
+    except _core.ChildFailed as e:
+        why = str(e)
+        res = dict(event=event, k=k, mech=mech, order=list(order), driver='cli', count_stdout_closed=False,
+                   flags=sorted(flags or ()), unraisable=0)
+        if 'died without a result' in why:
+            # the process is gone and printed nothing: what a user sees after ^C is a dead program, not a report
+            res.update(status='interrupted', main_exc='ProcessKilled',
+                       msg='the program died when SIGINT was delivered during the count; no report was produced',
+                       frame=None, line_text='',
+                       fired=dict(site=('?', '?', 0), header='?', stack=[], nact=-1, in_gen=False))
+            return res
+        raise
+
+
 def run_faulted(R, text, options, event, k, mech, order, driver='api', flags=None, raw=None, closed_count=False):
     """count with SIGINT delivered at event k, then render.
 
@@ -241,8 +302,12 @@ def run_faulted(R, text, options, event, k, mech, order, driver='api', flags=Non
     driver 'main' : Droop.main({path, rule..., report/dump/json flags}) through SimFS;
                     `flags` is the set of enabled renderings, `raw` the stored bytes
     """
+    if driver == 'cli' and not _IN_CLI_CHILD[0]:
+        return _run_cli_forked(R, text, options, event, k, mech, order, flags, raw)
     res = dict(event=event, k=k, mech=mech, order=list(order), driver=driver, count_stdout_closed=bool(closed_count))
-    tr = Tracer(R, event=event, k=k, mech=mech, budget=k + 1000)
+    tr = Tracer(R, event=event, k=k, mech='sigint' if driver == 'cli' else mech,
+                budget=REF_BUDGET['thorough'] * 3 if driver == 'cli' else k + 1000)
+    tr.real_only = driver == 'cli'
     with unraisable_counter() as unr, sunk_stdout(), _closed_console(closed_count):
         if driver == 'api':
             try:
@@ -300,7 +365,7 @@ def run_faulted(R, text, options, event, k, mech, order, driver='api', flags=Non
                 signal.setitimer(signal.ITIMER_REAL, 2 * RENDER_WALL)
                 try:
                     tr.install()
-                    out = R.Droop.main(opts)
+                    out = _invoke_cli(R, opts) if driver == 'cli' else R.Droop.main(opts)
                 except BudgetExceeded:
                     res.update(status='budget')
                     return res
@@ -379,8 +444,8 @@ def check(ref, res):
         return v
     if res.get('status') != 'interrupted':
         return v
-    if res['driver'] == 'main' and 'main_exc' in res:
-        v.append(dict(cls='main-diverges', what='main', exc=res['main_exc'], msg=res.get('msg', ''),
+    if res['driver'] in ('main', 'cli') and 'main_exc' in res:
+        v.append(dict(cls='main-diverges', what=res['driver'], exc=res['main_exc'], msg=res.get('msg', ''),
                       frame=res.get('frame'), line_text=res.get('line_text', '')))
         return v
     F = ref['actions']
@@ -462,21 +527,23 @@ def check(ref, res):
                               want=c0[jj][:200] if jj < len(c0) else None))
         if not marked:
             v.append(dict(cls='not-marked', what=r['name'], msg='no interruption mark in the rendering'))
-    if res['driver'] == 'main':
+    if res['driver'] in ('main', 'cli'):
         out = res.get('main_out')
         if not isinstance(out, str):
-            v.append(dict(cls='main-diverges', what='main', msg='main returned %s' % type(out).__name__))
+            v.append(dict(cls='main-diverges', what=res['driver'], msg='main returned %s' % type(out).__name__))
         else:
             ref_all = set()
             for t in ref['rend'].values():
                 ref_all.update(t.split('\n'))
             if not any('interrupt' in ln.lower() and ln not in ref_all for ln in out.split('\n')) \
                     and not any(m and m in out for m in marker_msgs):
-                v.append(dict(cls='not-marked', what='main', msg='main output lacks any interruption mark'))
+                v.append(dict(cls='not-marked', what=res['driver'], msg='main output lacks any interruption mark'))
             if not any('exc' in r for r in res['renderings']):
                 exp = "".join(r['text'] for r in res['renderings'])
+                if res['driver'] == 'cli' and out.endswith(exp) and '\n' not in out[:len(out) - len(exp)]:
+                    out = exp       # progress characters printed during the count precede the program's report
                 if out != exp:
-                    v.append(dict(cls='main-diverges', what='main',
+                    v.append(dict(cls='main-diverges', what=res['driver'],
                                   msg='main output differs from report+dump+json of the interrupted election'))
     return v
 
@@ -519,9 +586,9 @@ INTERESTING = {'action', '_fill', 'elect', 'defeat', 'unpend', 'copy', 'postChec
 
 PARAMS = {
     'quick': dict(exh_cap=2000, sample=300, op_cases=0.15, op_stride=5, op_random=60, main_cases=0.25, main_k=36,
-                  sigint=0.01, window_orders=2, crosscheck=3, cprofile=0.08, op_max=700, x_cases=0.2, x_max=100, max_k=1100),
+                  sigint=0.01, window_orders=2, crosscheck=3, cli_k=5, cprofile=0.08, op_max=700, x_cases=0.2, x_max=100, max_k=1100),
     'thorough': dict(exh_cap=8000, sample=1500, op_cases=0.5, op_stride=1, op_random=400, main_cases=0.4, main_k=120,
-                     sigint=0.02, window_orders=3, crosscheck=6, cprofile=0.1, op_max=5000, x_cases=0.5, x_max=500, max_k=5000),
+                     sigint=0.02, window_orders=3, crosscheck=6, cli_k=16, cprofile=0.1, op_max=5000, x_cases=0.5, x_max=500, max_k=5000),
 }
 
 
@@ -982,6 +1049,16 @@ def run_case(R, seed, idx, tier):
             res = run_faulted(R, text, o, 'line', k, 'raise', (), 'main', fl, raw)
             out['steps'] += k
             account(summarise(ref, res))
+        # the whole program: Droop.py run as __main__ with a command line (every option a string), output not a
+        # terminal, the interrupt a real SIGINT under whatever disposition the program installed; each in its own child
+        mks = sorted(mk)
+        for j in range(min(P['cli_k'], len(mks))):
+            k = mks[(j * 7 + salt) % len(mks)]
+            fl = set(flagsets[(j + salt + 3) % len(flagsets)])
+            res = run_faulted(R, text, o, 'line', k, 'sigint', (), 'cli', fl, raw)
+            out['steps'] += k
+            account(summarise(ref, res))
+            probe('cli_program_runs')
     elif R.Droop is None:
         probe('driver_unavailable')
 
